@@ -355,6 +355,18 @@ def dispatch (memo : QuadMemo) (cmd : String) (a : Array J) : Option (R × QuadM
         match f with
         | Option.none => throw .other
         | some f => return jverdict (fz.eqOn (fx.map f))
+  | "rf.needed" => pure' do
+      let c ← crv 0
+      return do
+        let c ← c
+        return .arr (((← RF.ofCurve c).neededMults c.kv.deg).map fun (x, m) => .arr [.num x, jn m])
+  | "rf.evalderiv" => pure' do
+      -- exact values of dC/du at the given parameters (right-continuous piece selection)
+      let c ← crv 0; let us ← (arg 3).vec?
+      return do
+        let c ← c
+        let f := (← RF.ofCurve c).map Piece.deriv
+        return .arr (us.map fun u => match RF.eval f u with | some v => jv v | Option.none => .none)
   | "rf.integral" => pure' do
       let c ← crv 0
       return do
